@@ -948,7 +948,7 @@ impl Prop for C08 {
     fn case_count(&self, tier: Tier) -> u64 {
         match tier {
             Tier::Quick => 4000,
-            Tier::Thorough => 150_000,
+            Tier::Thorough => 130_000,
         }
     }
     fn fixed_cases(&self, tier: Tier) -> Vec<Case> {
